@@ -13,6 +13,9 @@ Case kinds
          recursive-descent parser run on the REAL lexer's token stream of that text.
   esc    a string: _escape/_unescape/DQSTRING regex/predicate.normalize/quoting decision/is_surface.
   lnk    an Lnk string: Lnk(s) and str() of it.
+  lex    a string over the token alphabet (or the real encoder's text): real lexer vs lean/Verif/C01/Lexer.lean.
+  long   deterministic long documents (> 1024 / > 2048 lexer tokens, item starts around the multiples of 1024)
+         for the list APIs of SimpleMRS and Indexed MRS, and single structures of that size (oracle only).
 """
 import io
 import json
@@ -714,7 +717,11 @@ class C01(Check):
             "blanks, NBSP) and, for the model only, un-normalised ones; constants and surface/base/identifier "
             "strings over an alphabet weighted to \" \\ ' : < > [ ] & ; XML/JSON metacharacters, combining and "
             "astral characters, no Cc/Cs/Zl/Zp; every Lnk kind the codec carries; x properties on/off x lnk on/off "
-            "x indent in {False,True,None,0,2} x encode/decode, dumps/loads, dump/load (StringIO, file). Indexed MRS: "
+            "x indent in {False,True,None,0,2} x encode/decode, dumps/loads, dump/load (StringIO, file); a purity clause "
+            "(first encode/decode repeated after the battery). In every run 28 long documents (SimpleMRS, Indexed; "
+            "item starts -3..+3 tokens around 1024 and 2048) and 4 single structures of > 1024 / > 2048 tokens. "
+            "Indexed MRS: a fresh SEM-I per case (8 predicates, synopses vary in role names/order/sorts/optionality "
+            "and CARG listed or not/position/optional) preceded in the same case by a second, disagreeing one; also "
             "structures covered by a fixed SEM-I with 14 predicates (two with two synopses, four with CARG listed "
             "first/middle/last/not at all). SimpleMRS token streams mutated (drop/dup/swap/replace/truncate, case "
             "changes, property blocks on handles). Non-trivial = at least one EP or a non-empty string; distinct by "
@@ -722,9 +729,11 @@ class C01(Check):
     assumptions = [
         "xml.etree and json are parameters: parse(serialise(t)) = t on the trees/dicts the encoders build "
         "(checked as a side oracle on every generated case)",
-        "the regex lexer of SimpleMRS and the text layout of the encoders are not modelled: the model's token "
-        "encoder is compared with the REAL lexer's token stream of the REAL encoder's text, the model's parser "
-        "with the real decoder on real token streams",
+        "SimpleMRS: the regex lexer is modelled character by character (Lexer.lean, ASCII digits for \\d) and "
+        "compared with the real lexer on strings over the token alphabet and on the real encoder's text; the "
+        "single-line layout `render` is compared with encode(indent=False); the indented layouts are not "
+        "modelled (the real lexer's token stream of the real text is what the token encoder is compared with)",
+        "Indexed MRS: the regex lexer and the text layout are not modelled (real lexer's token stream)",
         "Indexed MRS: the model receives the SEM-I as tables (synopses, property lists per sort, descendants of "
         "both hierarchies) computed by the harness from the same literals the SemI object is built from",
         "case folding (str.lower/upper) is modelled on ASCII; generated atoms that get case-folded contain only "
@@ -795,6 +804,21 @@ class C01(Check):
         case.update(extra)
         return case
 
+    LEXPIECES = ["[", "]", "<", ">", "<0:5>", "<-1:-1>", "<@3>", "<1 2>", "<1  2 3>", "<1 a>", "<:>", "<1:>", "<-1#2>", "<@>",
+                 "<12", "\"", "\"a\\\"b\"", "\"a\\\\\"", "\"a\\", "\"x y\"", "'x", "'", "'a:b", "_a_n_1", "_a_n", "_a_n_rel",
+                 "_a_n_1_rel", "_a_nx", "_a_", "__", "_", "_a_n_<1>", "_a_n_1<0:1>", "_a_n_x<y", "_a_n_1<0:1>x", "_a_n__",
+                 "_a_N_1", "_a b_n_1", "_\xe9_v_2", "LBL:", "a:", ":", "::", "a:b:", "\"a:", "h1", "x", "\t", "\xa0",
+                 "\u3000", " ", "  ", "\n", "\r", "\x0b", "\u2028", "\xe9", "#", "@", "-", "0", "12", "a<b", "a<0:5> ", "a<0:5>",
+                 "a>", "a]", "a[", "x<1>\t", "x<1>\xa0", "<0:5>\t", "\\", "rel", "_rel", "TOP:", "qeq"]
+
+    def lex_case(self, rng):
+        n = rng.choice([1, 2, 2, 3, 4, 5, 6, 8])
+        out = []
+        for _ in range(n):
+            out.append(rng.choice(self.LEXPIECES))
+            out.append(rng.choice([" ", " ", "", "", "\n"]))
+        return {"kind": "lex", "s": cps("".join(out))}
+
     def parse_case(self, rng):
         c = self.codecs["simple"]
         toks = []
@@ -855,10 +879,25 @@ class C01(Check):
         for s in ["", "<0:5>", "<-1:-1>", "<0#5>", "<@7>", "<1 2 3>", "<>", "<", ">", "<1>", "<a:b>", "<1:2:3>", "0:5",
                   "<1  2>", "<-3#-4>", "<007:08>", "<@>", "<:>", "<1:>", "<1#2#3>", "<@-1>"]:
             yield {"kind": "lnk", "s": cps(s)}
+        for _ in range(400 if tier == "quick" else 6000):
+            yield self.lex_case(rng)
+        if tier != "quick":
+            for a in self.LEXPIECES:
+                for b in self.LEXPIECES:
+                    yield {"kind": "lex", "s": cps(a + b + " " + a + " " + b)}
         for _ in range(n):
             r = rng.random()
             if r < 0.26:
-                yield self.rt_case(rng, "simple")
+                c_ = self.rt_case(rng, "simple")
+                yield c_
+                if c_["items"] and rng.random() < 0.5:
+                    # the real encoder's text (either layout) through the model's lexer
+                    try:
+                        yield {"kind": "lex", "s": cps(simplemrs.dumps([m_from_wire(j) for j in c_["items"]],
+                                                                         properties=c_["props"], lnk=c_["lnk"],
+                                                                         indent=rng.choice([True, False])))}
+                    except Exception:
+                        pass
             elif r < 0.42:
                 yield self.rt_case(rng, "mrx")
             elif r < 0.56:
@@ -867,8 +906,10 @@ class C01(Check):
                 yield self.rt_case(rng, "indexed")
             elif r < 0.70:
                 yield self.rt_case(rng, rng.choice(["simple", "json", "mrx"]), n_items=1, family="unnormalised")
-            elif r < 0.86:
+            elif r < 0.80:
                 yield self.parse_case(rng)
+            elif r < 0.86:
+                yield self.lex_case(rng)
             elif r < 0.95:
                 s = gen_text(rng, maxlen=8)
                 if rng.random() < 0.4:
@@ -927,11 +968,12 @@ class C01(Check):
                 return {"err": errname(e)}
             key = {"simple": "toks", "json": "dict", "mrx": "xml", "indexed": "toks"}[codec]
             rekey = {"simple": "retoks", "json": "redict", "mrx": "rexml", "indexed": "retoks"}[codec]
+            lay = {"text": cps(text)} if codec == "simple" else {}
             try:
                 d = c.decode(text)
             except Exception as e:
-                return {key: first, "dec": {"err": errname(e) if codec in ("simple", "indexed") else "Exception"}}
-            out = {key: first, "dec": m_to_wire(d)}
+                return {key: first, "dec": {"err": errname(e) if codec in ("simple", "indexed") else "Exception"}, **lay}
+            out = {key: first, "dec": m_to_wire(d), **lay}
             if codec in ("simple", "indexed"):
                 out["rest"] = 0
             try:
@@ -941,6 +983,11 @@ class C01(Check):
             return out
         if k == "long":
             return {"items": len(case["items"]), "tokens": case.get("tokens")}
+        if k == "lex":
+            try:
+                return {"ok": real_lex(uncps(case["s"]))}
+            except MRSSyntaxError:
+                return {"err": "MRSSyntaxError"}
         if k == "parse":
             text = uncps(case["text"])
             try:
@@ -1000,6 +1047,8 @@ class C01(Check):
             return {"op": "parse", "toks": toks}
         if k == "esc":
             return {"op": "esc", "s": case["s"]}
+        if k == "lex":
+            return {"op": "lex", "s": case["s"]}
         if k == "lnk":
             s = uncps(case["s"])
             if not all(ord(c) < 128 for c in s) or re.search(r"[+_\t]|\d [<>:#]|[<:#@] \d|^<? +|- ", s):
@@ -1016,6 +1065,13 @@ class C01(Check):
         return res
 
     def model_compare(self, case, expected, answer):
+        if (case["kind"] == "rt" and case["codec"] == "simple" and isinstance(answer, dict)
+                and isinstance(expected, dict) and "text" in answer):
+            # layout: the model's `render` is the single-line layout of a non-empty token list ("[  ]" of
+            # the empty structure has two blanks); compared for expressible structures only
+            if len(answer.get("toks") or []) <= 2 or not case.get("expressible", True):
+                answer = {k_: v for k_, v in answer.items() if k_ != "text"}
+                expected = {k_: v for k_, v in expected.items() if k_ != "text"}
         if (case["kind"] == "rt" and case["codec"] == "simple" and not case.get("expressible", True)
                 and isinstance(answer, dict) and isinstance(expected, dict)):
             # un-normalised predicates are outside the quantifier; whether the lexer calls the unquoted
@@ -1356,6 +1412,11 @@ class C01(Check):
                 inc("parse:many:" + ("ok%d" % min(len(res["many"]["ok"]), 4) if "ok" in res["many"] else res["many"]["err"]))
                 for t in res["toks"]:
                     inc("ptok:" + t[0])
+        elif k == "lex" and isinstance(res, dict):
+            for t in res.get("ok", []):
+                inc("lextok:" + t[0])
+            if "err" in res:
+                inc("lex:error")
         elif k == "lnk" and isinstance(res, dict):
             inc("lnk-parse:" + ("ok" if "ok" in res else res["err"]))
         elif k == "esc" and isinstance(res, dict):
